@@ -97,6 +97,43 @@ def upper_bound(t, depth=0, env=None):
     return None
 
 
+def lower_bound(t, depth=0):
+    """a static lower bound of an integer term built from constants and elements of constant ranges, or None"""
+    if depth > 6 or not isinstance(t, tuple):
+        return None
+    if t[0] == "const" and isinstance(t[2], int):
+        return t[2]
+    if t[0] == "cast":
+        return lower_bound(t[3], depth + 1)
+    if t[0] == "some" and is_call(t[1], name="next"):
+        src = t[1][2][0]
+        while isinstance(src, tuple) and src and (src[0] == "iter" or (src[0] == "call" and src[1].rsplit("::", 1)[-1] in ("rev", "into_iter", "iter") and src[2])):
+            src = src[1] if src[0] == "iter" else src[2][0]
+        if isinstance(src, tuple) and src and src[0] == "agg" and (src[2] or "").endswith("Range"):
+            return lower_bound(dict(src[4]).get("start"), depth + 1)
+        return None
+    if t[0] == "bin" and t[1] == "Add":
+        a, b = lower_bound(t[2], depth + 1), lower_bound(t[3], depth + 1)
+        return None if a is None or b is None else a + b
+    return None
+
+
+def within_constant_range(c, k):
+    """assert conditions decided by constant bounds of the operands: `idx < LEN` with ub(idx) < LEN; `a + b` with ub(a) + ub(b)
+    small; `a - b` with lb(a) >= ub(b)"""
+    if k == "assert:bounds" and c[0] == "bin" and c[1] == "Lt" and c[3][0] == "const" and isinstance(c[3][2], int):
+        ub = upper_bound(c[2])
+        return ub is not None and lower_bound(c[2]) is not None and ub < c[3][2]
+    t = c[1] if c[0] == "field" and c[3] == "1" else c
+    if k == "assert:overflow:Add" and t[0] == "bin" and t[1] == "AddWithOverflow":
+        a, b = upper_bound(t[2]), upper_bound(t[3])
+        return a is not None and b is not None and lower_bound(t[2]) is not None and lower_bound(t[3]) is not None and a + b < 128
+    if k == "assert:overflow:Sub" and t[0] == "bin" and t[1] == "SubWithOverflow":
+        lo, hi = lower_bound(t[2]), upper_bound(t[3])
+        return lo is not None and hi is not None and lower_bound(t[3]) is not None and lo >= hi
+    return False
+
+
 def shift_in_range(c, env=None):
     """MIR asserts `amount < BITS` for a shift: discharge when a static upper bound of the amount is below the width"""
     if c[0] == "bin" and c[1] == "Lt" and c[3][0] == "const" and isinstance(c[3][2], int):
@@ -291,6 +328,106 @@ REVIEWED = {
 _callers = {}
 
 
+def _strip_buf(t):
+    """the buffer a length is taken of, through in-place updates and views: len(buf{as_mut(); copy_from_slice(..)}) is len(buf)"""
+    while isinstance(t, tuple) and t:
+        if t[0] == "mut":
+            t = t[1]
+        elif is_call(t) and t[1].rsplit("::", 1)[-1] in ("as_ref", "as_mut", "as_slice", "as_mut_slice", "deref", "deref_mut", "borrow") and len(t[2]) == 1:
+            t = t[2][0]
+        else:
+            break
+    return t
+
+
+def fixed_len(P, t, depth=0):
+    """length of a byte string fixed by its *type* (`[u8; N]` produced by a call, e.g. `Group::serialize(..)?` of a suite whose
+    Serialization is `[u8; 33]`), also through `split_at(k)` at a constant position: an int, or None"""
+    if depth > 4 or not isinstance(t, tuple) or not t:
+        return None
+    t = _strip_buf(t)
+    if t[0] in ("ok", "some"):
+        inner = t[1]
+        while isinstance(inner, tuple) and inner and inner[0] in ("map_err", "ok_or"):
+            inner = inner[1]
+        if is_call(inner):
+            ci, term = call_info(P, inner)
+            if term is not None and term.get("dest") is not None:
+                site = inner[3]
+                g = P.fns.get(site[2] if site[0] == "inl" else site[0])
+                n = array_len_of_type(g.local_ty(term["dest"]["l"])) if g is not None else None
+                if n is not None:
+                    return n
+        return fixed_len(P, inner, depth + 1)
+    if is_call(t):
+        ci, term = call_info(P, t)
+        if term is not None and term.get("dest") is not None:
+            site = t[3]
+            g = P.fns.get(site[2] if site[0] == "inl" else site[0])
+            ty = g.local_ty(term["dest"]["l"]) if g is not None else ""
+            if ty.startswith("[u8; ") or ty.startswith("&[u8; "):
+                return array_len_of_type(ty)
+    if t[0] == "field" and t[2] is None and t[3] in ("0", "1") and is_call(t[1], name="split_at") and len(t[1][2]) == 2:
+        k = t[1][2][1]
+        n = fixed_len(P, t[1][2][0], depth + 1)
+        if n is not None and k[0] == "const" and isinstance(k[2], int) and k[2] <= n:
+            return k[2] if t[3] == "0" else n - k[2]
+    return None
+
+
+def assertion_discharge(P, f, v, bb):
+    """an `assert_eq!` / `debug_assert_eq!` site (call into core::panicking::assert_failed) whose condition cannot be false there:
+       (a) every path to the site crosses an edge on which the very same comparison has the asserted truth value (it restates a
+           check made before), or
+       (b) it asserts len(X) == len(Y) and the function also runs `X.copy_from_slice(Y)` after it — the copy aborts under exactly
+           that condition, and carries the review.
+    Returns an "alias:" kind, or None (the site then needs a reviewed row like any other)."""
+    writes = {bb}
+    region = {q for q in f.normal_blocks() if f.reach(q) & {b for b in f.normal_blocks() if f.blocks[b].term["k"] in ("return",)} == set()
+              and bb in f.reach(q)}
+    region.add(bb)
+    entry = [(p, q, lab) for q in region for (p, lab) in f.preds().get(q, ()) if p not in region]
+    facts = [fa for e in entry for (e2, fa) in v.own_facts if e2 == e and fa[0] == "cond" and fa[1] not in ("other",) and fa[3] is not None]
+    if len(entry) != 1 or not facts:
+        return None
+    fa = facts[0]
+    kind, a, b_, holds = fa[1], fa[2], fa[3], fa[4]
+    same = lambda g: g[0] == "cond" and g[1] == kind and g[4] != holds and ((g[2] == a and g[3] == b_) or (kind == "eq" and g[2] == b_ and g[3] == a))
+    dom = {e for (e, g) in v.own_facts if same(g) and e[0] != entry[0][0]}
+    if dom and not sep(f, dom, {bb}):
+        return "alias:a-check-made-before"
+    # (c) an input-independent condition: both sides are constants of the build — literals, associated / private consts, the
+    #     output length of a fixed-output hash (`hasher.finalize().len()` is fixed by the hasher's type) — so the assertion holds
+    #     for every input or for none (and then every call aborts, which the suite's debug builds would show)
+    def fixed(t):
+        if t[0] in ("const", "uneval") or (isinstance(t[0], str) and t[0].startswith("uneval")):
+            return True
+        if isinstance(t, str):
+            return t.startswith("uneval")
+        X = t[2][0] if is_call(t, name="len") and len(t[2]) == 1 else (t[1] if t[0] == "len" else None)
+        if X is not None:
+            if fixed_len(P, X) is not None:
+                return True
+            X = _strip_buf(X)
+            if is_call(X) and X[1].rsplit("::", 1)[-1] in ("finalize", "finalize_fixed", "finalize_reset", "finalize_fixed_reset") and \
+                    ("Digest" in X[1] or "FixedOutput" in X[1]):
+                return True
+        return arg_free(t) and not mentions(t, lambda s_: is_call(s_) and s_[1].rsplit("::", 1)[-1] in ("random", "fill_bytes", "next"))
+    if fixed(a) and fixed(b_):
+        return "alias:input-independent-condition"
+    if kind == "eq" and not holds:
+        ln = lambda t: _strip_buf(t[2][0]) if is_call(t, name="len") and len(t[2]) == 1 else (_strip_buf(t[1]) if t[0] == "len" else None)
+        X, Y = ln(a), ln(b_)
+        if X is not None and Y is not None:
+            after = f.reach(entry[0][0])
+            for (b2, t2, ci2) in f.calls():
+                if ci2 and ci2.get("name") == "copy_from_slice" and b2 in after:
+                    ca = v.call_args(b2)
+                    if len(ca) == 2 and {_strip_buf(ca[0]), _strip_buf(ca[1])} == {X, Y}:
+                        return "alias:call:slice::copy_from_slice"
+    return None
+
+
 def normal_kind(P, f, v, k, bb):
     """equivalent spellings of one panic share a kind: `match x { Err(_) => panic!(..) }` / `let Ok(v) = x else { panic!() }` is
     `x.expect(..)`; `<[u8; N]>::try_from(s).expect(..)` / `s.try_into().unwrap()` is `buf.copy_from_slice(s)` (both abort exactly
@@ -321,6 +458,18 @@ def normal_kind(P, f, v, k, bb):
                 return "call:CtOption::unwrap"
     if k[5:] in ("Option::unwrap", "Result::unwrap"):
         return k.replace("unwrap", "expect")
+    if k == "call:slice::split_at" and t["k"] == "call":
+        # `x.split_at(k)` aborts exactly when `x[..k]` / `x[k..]` does (k > len): the same kind as the slicing it replaces
+        a = v.call_args(bb)
+        if len(a) == 2 and a[1][0] == "const" and isinstance(a[1][2], int):
+            n_ = fixed_len(P, a[0])
+            if n_ is not None and a[1][2] <= n_:
+                return "alias:constant-position-within-a-length-fixed-by-type"
+            return "call:Index::index"
+    if k == "call:panic:assert_failed":
+        r = assertion_discharge(P, f, v, bb)
+        if r is not None:
+            return r
     if k == "assert:rem0" and t["k"] == "assert":
         # `len % size` next to `chunks_exact(size)`: both abort exactly when size == 0
         c = v.cx.operand(t["cond"])
@@ -422,6 +571,12 @@ def run(ctx):
             if const_only(c):
                 auto += 1
                 ctx.ok("PANIC-auto", f.key, "%s@constant-operands" % k, {"cond": fmt(c)})
+                continue
+            if within_constant_range(c, k):
+                # index / small arithmetic on the variable of a loop over a constant range: `a[i]`, `a[i + 1]`, `i - 1` for
+                # `i in 1..8` on an 8-element array
+                auto += 1
+                ctx.ok("PANIC-auto", f.key, "%s@loop-variable-of-a-constant-range" % k, {"cond": fmt(c)[:120]})
                 continue
             if f.derive and "Serialize" in f.derive and k == "assert:overflow:Add":
                 auto += 1
